@@ -210,9 +210,12 @@ def run(ctx, eng):
                'decided')
     cm.include(ctx, eng, 'C11',
                lambda o: o.rule == 'COH.apply-map' and
-               o.desc.startswith('remote HEADER_TABLE_SIZE '),
+               o.desc.startswith(('remote HEADER_TABLE_SIZE ',
+                                  'remote MAX_FRAME_SIZE ')),
                'the encoder follows the peer\'s HEADER_TABLE_SIZE whatever '
-               'else the same SETTINGS frame changed')
+               'else the same SETTINGS frame changed; and every stream '
+               'slices by the peer\'s current MAX_FRAME_SIZE, or the '
+               'post-append assertion fires after the block was encoded')
     cm.include(ctx, eng, 'C25',
                lambda o: o.rule == 'FLOW.codec' and isinstance(o.where, str)
                and o.where.endswith('initiate_upgrade_connection'),
